@@ -2,6 +2,7 @@
 import bisect
 import math
 import struct
+from fractions import Fraction as Fr
 
 import vlib
 from checks import common, numself
@@ -94,6 +95,10 @@ def gen_grid(rng, nmax):
     else:
         emin = logu(rng, 1e-8, 1.0)
         emax = emin * logu(rng, 1.5, 1e9)
+    if rng.chance(1, 5):     # narrow bins far from the origin: E / (E_{i+1} - E_i) large
+        emin = logu(rng, 1e-6, 1e4)
+        emax = emin * (1.0 + logu(rng, 1e-3, 1.0))
+        return emin, emax, rng.range(max(2, nmax // 2), nmax)
     if rng.chance(1, 6):
         n = rng.range(2, 4)
     elif rng.chance(1, 3):   # Geant4-like: bins per decade
@@ -106,7 +111,7 @@ def gen_grid(rng, nmax):
 
 def gen_table(rng, n, kind=None):
     """positive values"""
-    kind = rng.below(4) if kind is None else kind
+    kind = rng.below(5) if kind is None else kind
     if kind == 0:
         return [logu(rng, 1e-6, 1e6) for _ in range(n)]
     if kind == 1:     # smooth random walk
@@ -118,6 +123,10 @@ def gen_table(rng, n, kind=None):
     if kind == 2:     # constant / few distinct values
         c = logu(rng, 1e-3, 1e3)
         return [c * rng.choice([1.0, 1.0, 2.0, 0.5]) for _ in range(n)]
+    if kind == 4:     # moderate values with a few knots many orders of magnitude below
+        c = logu(rng, 1e-3, 1e3)
+        return [c * logu(rng, 0.5, 2.0) * (logu(rng, 1e-24, 1e-8) if rng.chance(1, 4) else 1.0)
+                for _ in range(n)]
     a, p = logu(rng, 1e-3, 1e3), (rng.unit() - 0.5) * 3
     return [a * (i + 1) ** p for i in range(n)]
 
@@ -136,6 +145,8 @@ class Block:
     def __init__(self, rng, nmax):
         self.emin, self.emax, self.n = gen_grid(rng, nmax)
         self.front, self.back = math.log(self.emin), math.log(self.emax)
+        # by how many EPS*E a point may sit outside the bin chosen from rounded log arithmetic
+        self.kd = 4 * (max(abs(self.front), abs(self.back)) + (self.back - self.front)) + 8
         n = self.n
         self.prime = {}
         self.tables = {}
@@ -220,8 +231,13 @@ def build_script(ctx, exe, nblocks, nmax, n_interior, n_loss, n_msc):
     for b in blocks:
         b.delta = fl(out[k].split()[1])
         b.x = [fl(out[k + 1 + i]) for i in range(b.n)]
-        b.en = [math.exp(x) for x in b.x]
         k += 1 + b.n
+    # the knot energies exactly as the real code computes them: std::exp(loge_grid[i])
+    _, eout = vlib.run_lines([exe], ["exp %s" % hx(x) for b in blocks for x in b.x])
+    k = 0
+    for b in blocks:
+        b.en = [fl(eout[k + i]) for i in range(b.n)]
+        k += b.n
         b.finish_tables(rng)
         b.energies = gen_energies(rng, b, n_interior)
     # pass 1: range at the energies used for loss / msc; std::log of every probe energy
@@ -362,6 +378,9 @@ def gen_misc(rng, n):
     for gi in range(max(2, n // 8)):
         m = rng.range(2, 24)
         xs = gen_increasing(rng, m)
+        if rng.chance(1, 3):     # narrow bins far from the origin
+            base, w = logu(rng, 1.0, 1e6), logu(rng, 1e-7, 1e-2)
+            xs = [base * (1.0 + w * (i + rng.unit() * 0.5)) for i in range(m)]
         ys = gen_increasing(rng, m) if rng.chance(1, 2) else gen_table(rng, m)
         inc = all(ys[i] < ys[i + 1] for i in range(m - 1))
         script.append("gengrid %d %d %s" % (gi % 8, m, " ".join(hx(v) for v in xs + ys)))
@@ -372,11 +391,11 @@ def gen_misc(rng, n):
         probes += [xs[0] * 0.5, xs[-1] * 2] + [logu(rng, xs[0], xs[-1]) for _ in range(12)]
         for x in probes:
             script.append("gen %d %s" % (gi % 8, hx(x)))
-            meta.append(("gen", xs, ys, x))
+            meta.append(("gen", xs, ys, x, gi % 8))
         if inc:
             for y in [ys[0] * 0.5, ys[-1] * 2] + ys + [logu(rng, ys[0], ys[-1]) for _ in range(8)]:
                 script.append("geninv %d %s" % (gi % 8, hx(y)))
-                meta.append(("geninv", xs, ys, y))
+                meta.append(("geninv", xs, ys, y, gi % 8))
     return script, meta
 
 
@@ -387,6 +406,84 @@ def rel_close(a, b, tol, scale=None):
 
 
 EPS = 2.0 ** -52
+
+# Error analysis of the interpolation AS WRITTEN (Interpolator<linear,linear> + the calculators),
+# u = EPS/2, standard model fl(a op b) = (a op b)(1 + d), |d| <= u, one rounding for std::fma:
+#   a = fl(yr - yl), b = fl(xr - xl), s = fl(a / b), d = fl(x - xl), r = fl(s*d + yl)   (fma)
+#   s*d = S*D*(1 + t), |t| <= 4u + O(u^2);   r = (yl + S*D*(1 + t))(1 + d5)
+#   |r - R| <= 4u |S D| + u |R| + O(u^2) <= 4u |yr - yl| + u max|y| <= 5u M   for x in the bin,
+#   M = max(|yl|, |yr|) (same-sign knots).  XsCalculator adds fl(yr / E_r) at the prime bin and the
+#   final fl(result / E): + 2u M.  Total <= 7u M = 3.5 EPS M; C = 8 leaves a factor 2 for the
+#   second-order terms and the few-ulp extrapolation D/dx <= 1 + O(EPS x/dx).
+# Consequence: the Float result can leave [min(yl,yr), max(yl,yr)] by up to C EPS M although the
+# real-number interpolant cannot (Props/C14 xs_between_neighbours): when one knot is tiny and
+# the other huge, that is far more than an ulp of the small knot and can even be negative.
+C_INTERP = 8
+
+
+def judge_interp(orc, kind, bi, setup, line, xl, yl, xr, yr, x, v, kl, kr, *, upper_div=None,
+                 final_div=False, dist_ulps_ok=0.0):
+    """One interpolated value of the real code against the exact rational interpolant of the
+    bin the code chose.  (xl, yl), (xr, yr): the two points as stored (floats);
+    upper_div: E_r when the upper value is un-scaled by it first (prime bin); final_div: result
+    divided by x; kl, kr: the neighbouring knot values the property speaks about;
+    dist_ulps_ok: by how many EPS*x the point may lie outside [xl, xr] because the bin is chosen
+    from rounded log-space arithmetic.  Returns False when the point needs no further checks."""
+    FX, Fxl, Fxr, Fyl, Fyr = Fr(x), Fr(xl), Fr(xr), Fr(yl), Fr(yr)
+    if upper_div is not None:
+        Fyr = Fyr / Fr(upper_div)
+    R = Fyl + (Fyr - Fyl) / (Fxr - Fxl) * (FX - Fxl)
+    M = max(abs(Fyl), abs(Fyr))
+    if final_div:
+        R, M = R / FX, M / FX
+    Mf = float(M)
+    err = abs(float(Fr(v) - R))
+    bound = C_INTERP * EPS * Mf
+    orc.count(kind + "_interp")
+    info = {"x": x, "value": v, "exact_interpolant": float(R), "abs_error": err,
+            "bound_C_eps_maxy": bound, "C": C_INTERP, "points": [[xl, yl], [xr, yr]],
+            "neighbour_knot_values": [kl, kr]}
+    if err > orc.worst_interp_err[0] * max(bound, 1e-300) and bound > 0:
+        orc.worst_interp_err = (err / bound, dict(info, op=line))
+    if not (err <= bound):
+        orc.fail(kind + "-interp-error-bound", "interpolated value differs from the exact "
+                 "interpolant of the chosen bin by more than C*eps*max|y| (rounding analysis of "
+                 "the formula as written)", bi, setup + [line], info)
+        return False
+    dist = max(0.0, float(Fxl - FX), float(FX - Fxr))
+    if dist > dist_ulps_ok * EPS * abs(x):
+        orc.fail(kind + "-wrong-bin", "value interpolated in a bin that does not contain the "
+                 "point (beyond what the rounded log-space bin search explains)", bi,
+                 setup + [line], dict(info, outside_by=dist, allowed=dist_ulps_ok * EPS * abs(x)))
+        return False
+    lo, hi = min(kl, kr), max(kl, kr)
+    excess = max(0.0, lo - v, v - hi)
+    if excess > 0 or (v < 0 and lo >= 0):
+        # (a) explained by rounding: C*eps*M for the formula + the exact slope over the few ulps
+        # by which the rounded bin search lets the point sit outside the bin
+        slope = abs(float((Fyr - Fyl) / (Fxr - Fxl))) / (float(FX) if final_div else 1.0)
+        allowed = bound + slope * dist * (1 + 1e-9) + 4 * EPS * max(abs(kl), abs(kr))
+        info.update({"beyond_neighbour_by": excess, "allowed_by_rounding": allowed,
+                     "outside_bin_by_ulps_of_x": dist / (EPS * abs(x)) if x else 0.0})
+        if excess <= allowed:
+            # specific keys: (i) within C*eps*max|y| of the neighbour: rounding of the formula;
+            # (ii) more than that, but explained by the exact line of the chosen bin evaluated
+            # the few ulps outside the bin that the rounded log-space bin search allows
+            # (slope * distance; only matters for narrow bins, x/dx >> 1)
+            base = ("interp-cancellation-beyond-neighbour" if excess <= bound
+                    + 4 * EPS * max(abs(kl), abs(kr)) else "interp-bin-edge-extrapolation")
+            key = base + (":negative" if v < 0 <= lo else "")
+            orc.count(key)
+            orc.cancel.setdefault(key, []).append((excess / Mf if Mf else 0.0, kind, bi,
+                                                  setup + [line], info))
+            return True
+        orc.fail(kind + "-between", "value inside a bin is not between the neighbouring knot "
+                 "values (beyond the rounding of the interpolation formula)", bi, setup + [line],
+                 info)
+        return False
+    return True
+
+
 
 
 class Oracle:
@@ -400,6 +497,8 @@ class Oracle:
         self.lastbin_effect = (0.0, None)   # largest relative deviation from the last knot value
         self.back, self.switch, self.fullrange = [], [], []
         self.worst_round = (0.0, None)
+        self.worst_interp_err = (0.0, None)
+        self.cancel = {}          # finding key -> [(rel excess, kind, bi, ops, info)]
         self.ebin = {}            # (bi, E) -> bin returned by the real find | None outside
 
     def count(self, k, n=1):
@@ -516,7 +615,7 @@ class Oracle:
                         self.lastbin_effect = (dev, {"op": line, "value": v, "last_knot": kn[-1],
                                                      "block": bi, "slot": slot})
                     continue
-                if not (math.isfinite(v) and v >= 0):
+                if not math.isfinite(v):
                     self.fail("xs-nonfinite-or-negative", "lookup is not a finite non-negative value",
                               bi, [line], {"E": e, "value": v})
                     continue
@@ -524,26 +623,23 @@ class Oracle:
                     i = 0 if reg == "below" else b.n - 1
                     want = y[i] / e if (p is not None and i >= p) else y[i]
                     self.count("xs_extrapolated")
-                    if v != want:
+                    if v != want or v < 0:
                         self.fail("xs-extrapolation", "value outside the grid is not the documented "
                                   "extrapolation", bi, [line], {"E": e, "value": v, "expected": want})
                     if tag.startswith("knot") or tag == "end":
                         byknot.setdefault(i, []).append((e, v, line))
                     continue
                 k = reg
-                near = [k, k + 1]
-                for j in (k, k + 1):       # within a few ulp of a knot: either adjacent bin
-                    if abs(e - b.en[j]) <= 16 * EPS * e:
-                        near += [max(j - 1, 0), min(j + 1, b.n - 1)]
-                        if tag.startswith("knot") or tag == "end":
-                            byknot.setdefault(j, []).append((e, v, line))
-                lo = min(kn[j] for j in near)
-                hi = max(kn[j] for j in near)
-                tol = 1e-11 * hi
-                if not (lo - tol <= v <= hi + tol):
-                    self.fail("xs-between", "value inside a bin is not between the neighbouring "
-                              "knot values", bi, [line], {"E": e, "value": v, "bin": k,
-                                                         "knots": [kn[j] for j in sorted(set(near))]})
+                for j in (k, k + 1):
+                    if abs(e - b.en[j]) <= 16 * EPS * e and (tag.startswith("knot") or tag == "end"):
+                        byknot.setdefault(j, []).append((e, v, line))
+                ok = judge_interp(
+                    self, "xs", bi, [], line, b.en[k], y[k], b.en[k + 1], y[k + 1], e, v,
+                    kn[k], kn[k + 1],
+                    upper_div=(b.en[k + 1] if (p is not None and k + 1 == p) else None),
+                    final_div=(p is not None and k >= p), dist_ulps_ok=b.kd)
+                if not ok:
+                    continue
                 if tag == "knot":
                     j = min(range(b.n), key=lambda q: abs(b.en[q] - e))
                     loc = max(kn[max(j - 1, 0)], kn[j], kn[min(j + 1, b.n - 1)])
@@ -581,6 +677,11 @@ class Oracle:
                 if not (math.isfinite(r) and r > 0):
                     self.fail("range-nonpositive", "range is not finite positive", bi, [line],
                               {"E": e, "range": r})
+                reg = self.region(bi, e)
+                if isinstance(reg, int):
+                    rt = b.tables[2]
+                    judge_interp(self, "range", bi, [], line, b.en[reg], rt[reg], b.en[reg + 1],
+                                 rt[reg + 1], e, r, rt[reg], rt[reg + 1], dist_ulps_ok=b.kd)
                 if prev is not None and r < prev[1] * (1 - 1e-13):
                     self.fail("range-not-monotone", "range decreases with energy", bi,
                               [prev[2], line], {"E": [prev[0], e], "range": [prev[1], r]})
@@ -596,6 +697,11 @@ class Oracle:
                 if not (math.isfinite(e) and e >= 0):
                     self.fail("invrange-negative", "inverse range is not finite non-negative", bi,
                               [line], {"range": r, "E": e})
+                rt = b.tables[2]
+                if rt[0] <= r < rt[-1]:
+                    k = bisect.bisect_right(rt, r) - 1
+                    judge_interp(self, "invrange", bi, [], line, rt[k], b.en[k], rt[k + 1],
+                                 b.en[k + 1], r, e, b.en[k], b.en[k + 1])
                 if prev is not None and e < prev[1] * (1 - 1e-13):
                     self.fail("invrange-not-monotone", "inverse range decreases", bi,
                               [prev[2], line], {"range": [prev[0], r], "E": [prev[1], e]})
@@ -695,22 +801,22 @@ def check_misc(orc, script, meta, out):
                 orc.fail("msc-true-not-between", "MscStepFromGeo result not in [geom, true]", None,
                          [line], {"true": tr, "geom": g, "result": t, "alpha": alpha})
         elif m[0] in ("gen", "geninv"):
-            _, xs, ys, x = m
+            _, xs, ys, x = m[:4]
             if m[0] == "geninv":
                 xs, ys = ys, xs
             v = fl(o)
             orc.count("generic")
-            k = min(max(bisect.bisect_right(xs, x) - 1, 0), len(xs) - 2)
-            near = [max(k - 1, 0), k, k + 1, min(k + 2, len(xs) - 1)]
-            lo, hi = min(ys[j] for j in near), max(ys[j] for j in near)
-            if x <= xs[0]:
-                lo = hi = ys[0]
-            if x >= xs[-1]:
-                lo = hi = ys[-1]
-            if not (lo * (1 - 1e-12) <= v <= hi * (1 + 1e-12)):
-                orc.fail("generic-between", "GenericCalculator value outside the neighbouring "
-                         "points", None, [line], {"x": x, "value": v, "lo": lo, "hi": hi})
-
+            setup = ["gengrid %d %d %s" % (m[4], len(m[1]), " ".join(hx(t) for t in m[1] + m[2]))]
+            if x <= xs[0] or x >= xs[-1]:
+                want = ys[0] if x <= xs[0] else ys[-1]
+                if v != want:
+                    orc.fail("generic-extrapolation", "GenericCalculator outside the grid is not "
+                             "the end value", None, setup + [line], {"x": x, "value": v,
+                                                                    "expected": want})
+                continue
+            k = bisect.bisect_right(xs, x) - 1
+            judge_interp(orc, "generic", None, setup, line, xs[k], ys[k], xs[k + 1], ys[k + 1], x, v,
+                         ys[k], ys[k + 1])
 
 
 # --------------------------------------------------------------------------- round 3: real builders
@@ -1005,6 +1111,42 @@ def asan_lastbin(ctx, blocks, wit):
     return asan_replay([line] + ["xsraw 0 " + hx(c) for c in cands[:8]])
 
 
+def judge_ops(orc, exe, ops):
+    """apply the interpolation judge to deterministic ops (corpus): `gengrid`/`gen` and
+    `xsgrid`/`xs` (no prime index, offset 0)"""
+    _, out = vlib.run_lines([exe], ops)
+    gen, xsg = None, None
+    for l, o in zip(ops, out):
+        w = l.split()
+        if w[0] == "gengrid":
+            n = int(w[2])
+            vals = [fl(t) for t in w[3:]]
+            gen = (l, vals[:n], vals[n:])
+        elif w[0] == "gen" and gen and is_val(o):
+            xs, ys = gen[1], gen[2]
+            x = fl(w[2])
+            if xs[0] < x < xs[-1]:
+                k = bisect.bisect_right(xs, x) - 1
+                judge_interp(orc, "generic", None, [gen[0]], l, xs[k], ys[k], xs[k + 1], ys[k + 1],
+                             x, fl(o), ys[k], ys[k + 1])
+        elif w[0] == "xsgrid":
+            xsg = (l, fl(w[2]), fl(w[3]), int(w[5]), [fl(t) for t in w[7:]])
+        elif w[0] == "xs" and xsg and is_val(o):
+            g, front, back, n, tab = xsg
+            e = fl(w[2])
+            _, q = vlib.run_lines([exe], [g, "log " + w[2]])
+            loge = fl(q[1])
+            if not (front < loge < back):
+                continue
+            _, q = vlib.run_lines([exe], [g, "ugfind %s %s" % (w[1], hx(loge))])
+            k = int(q[1])
+            _, q = vlib.run_lines([exe], [g, "ugat %s %d" % (w[1], k), "ugat %s %d" % (w[1], k + 1)])
+            _, q2 = vlib.run_lines([exe], ["exp " + q[1], "exp " + q[2]])
+            kd = 4 * (max(abs(front), abs(back)) + (back - front)) + 8
+            judge_interp(orc, "xs", None, [g], l, fl(q2[0]), tab[k], fl(q2[1]), tab[k + 1], e, fl(o),
+                         tab[k], tab[k + 1], dist_ulps_ok=kd)
+
+
 def run(ctx):
     quick = ctx.quick()
     ps = common.proof_side(ctx, "C14")
@@ -1038,6 +1180,12 @@ def run(ctx):
     script += sscript
     meta += smeta
     s1 = len(script)
+    # the kernel-evaluable bit-level arithmetic behind the Float witnesses of Props/C14
+    for _ in range(3000 * mult):
+        bop = ctx.rng.choice(["add", "sub", "mul", "div", "div", "lt", "le", "eq", "fma", "lerp"])
+        script.append("bitop %s %s" % (bop, " ".join(
+            "%x" % numself.rnd_bits(ctx.rng) for _ in range({"fma": 3, "lerp": 5}.get(bop, 2)))))
+        meta.append(("bitop",))
     script += ["xs 3 3ff0000000000000", "frob", "", "xsgrid 0 1 2", "eloss 0 0 1 2 3", "pstep 1 2",
                "xsbuild 0 1 2 3 2 1 1"]
     meta += [("bad",)] * 7
@@ -1074,6 +1222,28 @@ def run(ctx):
             if d2:
                 diverged += d2
                 broken.append(f"correspondence: fromgeo round trip differs on {len(d2)} ops")
+    # deterministic witnesses of the rounding-level deviations (corpus/C14/interp_*.ops)
+    for f in corpus_files():
+        if vlib.os.path.basename(f).startswith("interp_"):
+            judge_ops(orc, exe, [l.rstrip("\n") for l in open(f) if l.strip()
+                                 and not l.startswith("#")])
+    for key, cases in sorted(orc.cancel.items()):
+        rel, kind, bi, ops, info = max(cases, key=lambda t: t[0])
+        setup = [blocks[bi].grid_line(sl) for sl in range(4)] if bi is not None else []
+        ctx.violation(key,
+                      ("interpolated value leaves the interval of its two neighbouring knot values "
+                       "by at most C*eps*max|y| (C = 8): rounding of fma(slope, x - x_l, y_l), "
+                       "visible when the knot values inside one bin differ by many orders of "
+                       "magnitude" if key.startswith("interp-cancellation") else
+                       "interpolated value leaves the interval of its two neighbouring knot values "
+                       "by slope * (a few ulp of x): the rounded log-space bin search puts an "
+                       "energy within a few ulp of a knot into the adjacent bin, whose line is then "
+                       "evaluated just outside the bin (narrow bins, large |slope|); the value is "
+                       "within C*eps*max|y| of that exact line")
+                      + ("; the returned value is NEGATIVE although all knots are >= 0"
+                         if key.endswith(":negative") else ""),
+                      {"harness": "harness/calc.cc", "calculator": kind, "ops": setup + ops,
+                       "info": info, "cases_this_run": len(cases)})
     # findings
     seen = set()
     for key, what, replay in orc.fails:
@@ -1179,6 +1349,9 @@ def run(ctx):
         "find_last_bin_cases": len(orc.lastbin) + len(corpus_last), "oracle_inputs_patched": patched,
         "corpus_ops": n_corpus, "asan_corpus": asan_info,
         "loss_rounding_worst": {"abs": orc.worst_round[0], "at": orc.worst_round[1]},
+        "interp_error_worst_over_bound": {"ratio": orc.worst_interp_err[0],
+                                          "at": orc.worst_interp_err[1], "C": C_INTERP},
+        "interp_cancellation_cases": {k: len(v) for k, v in orc.cancel.items()},
         "blocks": len(blocks),
         "samples": [script[1][:200], script[len(script) // 2][:200], script[-6][:200]],
         "correspondence_broken": broken,
